@@ -64,5 +64,11 @@ func TestSelfDeterminism(t *testing.T) {
 			}
 		}
 	}
+	for i, prop := range []string{"C08", "C15"} { // the backlog engine: two executions are enough (they are slow)
+		seed := seedFor(base, uint64(7000+i))
+		prog := GenE4(prop, seed)
+		res := RunE4(t, prog, true)
+		digests[fmt.Sprintf("%s/e4/%d", prop, seed)] = hashOf(map[string]any{"log": res.Log, "v": res.Violation, "t": res.Trouble, "p": res.Stats.Probes})
+	}
 	writeJSONAtomic(outPath, digests)
 }
